@@ -158,7 +158,8 @@ pub fn run(ctx: &Ctx, sh: &mut Shard) {
         if k % 4 == 3 {
             sh.class("prepared:mixed_dimension_collection");
         }
-        let lat = Lat::random(&mut r);
+        // one history in five on the sheared lattice (long, nearly parallel edges: every envelope overlaps every other)
+        let lat = if k % 5 == 0 { sh.class("lattice:sheared"); Lat::random_sheared(&mut r) } else { Lat::random(&mut r) };
         let nops = if ctx.tier == "thorough" && r.chance(1, 10) { r.range(100, 300) } else { r.range(10, 60) } as usize;
         let ops: Vec<Op> = (0..nops)
             .map(|_| Op {
